@@ -566,3 +566,19 @@ def rounding_programs(dev, r):
         h["ops"] = ops
         progs.append(h)
     return progs
+
+
+def device_programs():
+    """Programs for the EVO / Fluent comparison that are outside C01's quantifier: several virtual rows of one
+    trough column as distribute destinations (distinct positions on the EVO, one position on the Fluent)."""
+    P, T, Sx = 0, 1, 2
+    progs = []
+    h = _hdr("devices/trough-destinations", "evo", base_labware(), wlmax=30, flags={"comp": True, "norm": False})
+    h["ops"] = [
+        {"op": "distribute", "src": T, "col": 0, "dst": T, "dw": L([(0, 2), (1, 2), (3, 2)]), "vol": 4, "label": "three rows of one column"},
+        {"op": "distribute", "src": T, "col": 1, "dst": T, "dw": L([(0, 0), (1, 0), (2, 0), (3, 0), (1, 2)]), "vol": 2, "label": "two columns"},
+        {"op": "distribute", "src": T, "col": 2, "dst": T, "dw": L([(0, 0), (1, 0), (2, 0)]), "vol": 9, "label": "underflows: 14 - 27"},
+        {"op": "transfer", "src": T, "sw": L([(0, 0), (3, 0)]), "dst": T, "dw": L([(2, 1), (1, 1)]), "vols": L([3, 2]), "label": "t", "wash": 1},
+    ]
+    progs.append(h)
+    return progs
